@@ -52,6 +52,14 @@ Theorem C06_loads_tokens : forall s j, tokens s = Some (toks j) -> wf_json j -> 
 Proof. exact loads_of_tokens. Qed.
 Print Assumptions C06_loads_tokens.
 
+(* completeness of the parser for the JSON grammar: whatever spelling of the value j a text uses - any escapes inside its
+   string literals (raw non-ASCII characters, \uXXXX, short escapes, surrogate pairs), "-0" for 0, any blanks - json.loads
+   returns j.  [spells j T] is that grammar over token sequences; distinct keys per object is what a Python dict is. *)
+Theorem C06_loads_any_spelling : forall s j T,
+  tokens s = Some T -> spells j T -> keys_ok j -> (jdepth j <= depth_limit)%nat -> loads s = LOk j.
+Proof. exact loads_spelling. Qed.
+Print Assumptions C06_loads_any_spelling.
+
 (* the hypothesis is decidable; the extracted binary evaluates wf_jsonb on every document the decode model produces in the runs
    (evidence: doc-wf) *)
 Theorem C06_wf_decidable : forall j, wf_jsonb j = true -> wf_json j.
